@@ -53,8 +53,31 @@ pub fn to_miette_report_with_formatter(
 ) -> miette::Report {
     let sanitized_source = sanitize_terminal_snippet_preserve_len(source.to_owned());
     let src = Arc::new(NamedSource::new(file, sanitized_source));
-    let diag = build_diagnostic(err.without_snippet(), src, formatter);
+    let mut diag = build_diagnostic(err.without_snippet(), src, formatter);
+    sanitize_diagnostic_text(&mut diag);
     miette::Report::new(diag)
+}
+
+/// Messages and labels reflect input text (field names, duplicate keys, ...): pass them through
+/// the same terminal filter as the source.
+fn sanitize_diagnostic_text(diag: &mut ErrorDiagnostic) {
+    fn clean(s: String) -> String {
+        if crate::de_snipped::is_terminal_snippet_clean(&s) {
+            s
+        } else {
+            sanitize_terminal_snippet_preserve_len(s)
+        }
+    }
+    diag.message = clean(std::mem::take(&mut diag.message));
+    for label in &mut diag.labels {
+        if let Some(text) = label.label() {
+            let text = clean(text.to_owned());
+            *label = LabeledSpan::new_with_span(Some(text), *label.inner());
+        }
+    }
+    for related in &mut diag.related {
+        sanitize_diagnostic_text(related);
+    }
 }
 
 #[derive(Clone, Debug)]
